@@ -386,3 +386,58 @@ Theorem T09_timezone_lex : forall pre z,
   end.
 Proof. exact date_zone_spec. Qed.
 Print Assumptions T09_timezone_lex.
+
+(** ** xs:duration *)
+From XV Require Import C09.Spec09h C09.Model09h C09.Proofs09u.
+
+(** XMLDateTime::compare(d1, d2, strict) on durations: EQUAL when the (normalised) fields coincide, otherwise the
+    comparisons after adding both durations to the four reference dateTimes of 3.2.6.2, determinate iff all four
+    agree -- the same combination as the Spec order [dur_order_v] applies to the timeline comparisons *)
+Theorem T09_duration_combine : forall a b,
+  dur_compare a b true =
+  if (fields_cmp (dur_normalize a) (dur_normalize b) =? EQUAL)%Z then EQUAL
+  else let c i := let r := nth i ref_dates (0, 0)%Z in fields_cmp (add_duration r a) (add_duration r b) in
+       agree4 (c 0%nat) (c 1%nat) (c 2%nat) (c 3%nat).
+Proof. exact dur_compare_spec. Qed.
+Print Assumptions T09_duration_combine.
+Theorem T09_duration_order_shape : forall x y,
+  dur_order_v x y =
+  let c i := let r := nth i ref_dates (0, 0)%Z in q_cmp (add_to_ref r x) (add_to_ref r y) in
+  agree4 (c 0%nat) (c 1%nat) (c 2%nat) (c 3%nat).
+Proof. exact dur_order_shape. Qed.
+Print Assumptions T09_duration_order_shape.
+(** the indeterminate windows on model and Spec (P2M vs P59D..P62D incomparable, P63D greater, P1Y = P12M, ...) *)
+Theorem T09_duration_windows :
+  durv_compare (s2l "P2M") (s2l "P62D") = (-1)%Z /\ durv_compare (s2l "P62D") (s2l "P2M") = (-1)%Z /\ dur_order (s2l "P2M") (s2l "P62D") = 2%Z /\
+  durv_compare (s2l "P2M") (s2l "P63D") = (-1)%Z /\ durv_compare (s2l "P63D") (s2l "P2M") = 1%Z /\ dur_order (s2l "P2M") (s2l "P63D") = (-1)%Z /\
+  dur_order (s2l "P2M") (s2l "P59D") = 2%Z /\ dur_order (s2l "P2M") (s2l "P58D") = 1%Z /\
+  dur_order (s2l "P1Y") (s2l "P12M") = 0%Z /\ durv_compare (s2l "P1Y") (s2l "P12M") = 0%Z /\
+  dur_order (s2l "P1D") (s2l "PT24H") = 0%Z /\ dur_order (s2l "P1Y") (s2l "P365D") = 2%Z /\ dur_order (s2l "P1Y") (s2l "P367D") = (-1)%Z.
+Proof. exact dur_windows. Qed.
+Print Assumptions T09_duration_windows.
+Theorem T09_duration_f35_refuted :
+  dur_ok (s2l "PY") = true /\ dur_lex (s2l "PY") = false /\ dur_ok (s2l "PT.5S") = true /\ dur_lex (s2l "PT.5S") = false /\
+  dur_ok (s2l "P1YM") = true /\ dur_lex (s2l "P1YM") = false /\ dur_ok (s2l "PT0.5S") = true /\ dur_lex (s2l "PT0.5S") = true.
+Proof. exact f35_refuted. Qed.
+Print Assumptions T09_duration_f35_refuted.
+Theorem T09_duration_f36_refuted : durv_compare (s2l "PT0.5S") (s2l "PT0.6S") = 0%Z /\ dur_order (s2l "PT0.5S") (s2l "PT0.6S") = (-1)%Z.
+Proof. exact f36_refuted. Qed.
+Print Assumptions T09_duration_f36_refuted.
+Theorem T09_duration_f37_refuted : durv_compare (s2l "-P1M") (s2l "-P30D") = 0%Z /\ dur_order (s2l "-P1M") (s2l "-P30D") = 2%Z.
+Proof. exact f37_refuted. Qed.
+Print Assumptions T09_duration_f37_refuted.
+
+From XV Require Import C09.Proofs09v.
+(** addDuration on a reference dateTime lands on the instant the Spec computes (reference + months, then + seconds) and
+    leaves a valid, in-range dateTime *)
+Theorem T09_duration_add : forall r u, is_ref r -> dur_nonneg u ->
+  in_range (add_duration r u) /\ Qeq (add_to_ref r (dur_val u)) (secs_of (add_duration r u) # 1).
+Proof. exact add_duration_timeline. Qed.
+Print Assumptions T09_duration_add.
+(** XMLDateTime::compare(d1, d2, strict) on durations with non-negative integral fields IS the partial order of 3.2.6.2 on
+    the values (months, seconds): determinate iff the four reference comparisons agree.  Negative durations (F37) and
+    fractional seconds (F36) are excluded by [dur_nonneg] / [dur_val] *)
+Theorem T09_duration_order : forall a b, dur_nonneg a -> dur_nonneg b ->
+  dur_compare a b true = dur_order_v (dur_val a) (dur_val b).
+Proof. exact dur_compare_order. Qed.
+Print Assumptions T09_duration_order.
